@@ -158,22 +158,60 @@ static int chan_ok(uint32_t got, int max, int shift, int c16) {
   return g == lo || g == hi;
 }
 
-/* direct oracle for one client whose full-screen request was pending at this pump:
-   raw client: picture == framebuffer with the cursor laid over it at the CURRENT pointer position
-   shape client: picture == framebuffer */
-static void oracle_client(int id) {
+/* the pixel the ORIGINAL rfbMakeRichCursorFromXCursor computes (16-bit colours shifted, not scaled) */
+static uint32_t colour_unscaled(int r, int g, int b) {
+  rfbPixelFormat *f = &scr->serverFormat; uint32_t v;
+  v = ((uint32_t)r << f->redShift) | ((uint32_t)g << f->greenShift) | ((uint32_t)b << f->blueShift);
+  if (BPP == 1) v &= 0xffu; else if (BPP == 2) v &= 0xffffu;
+  return v;
+}
+
+/* compare a client's picture with the reference composition for pointer position (px,py).
+   pend != NULL: pixels marked there are skipped.  Every wrong pixel is classified: does it look
+   exactly like one of the two known defects of the unrepaired code (DESIGN 11-f: cursor pixel in
+   the last column/row left unpainted; X-cursor colour shifted instead of scaled)?  A wrong pixel
+   that is NOT of that kind is reported in preference, so that another violation cannot hide. */
+static void check_pixels(const char *label, int id, int px, int py, const unsigned char *pend) {
   int x, y; rfbPixelFormat *f = &scr->serverFormat;
+  int have = 0, hx = 0, hy = 0; uint32_t hgot = 0, hwant = 0; const char *hcause = "";
   for (y = 0; y < H; y++) for (x = 0; x < W; x++) {
-    uint32_t got = getpx(pic[id], x, y), want, m = 0xffffffffu; int rgb[3], mode = 1, bad;
-    if (kind[id] == 0) mode = reference(x, y, scr->cursorX, scr->cursorY, &want, &m, rgb);
+    uint32_t got = getpx(pic[id], x, y), want, m = 0xffffffffu, under; int rgb[3], mode = 1, bad; const char *cause = "";
+    if (pend && pend[y * W + x]) continue;
+    if (kind[id] == 0) mode = reference(x, y, px, py, &want, &m, rgb);
     else want = getpx((unsigned char *)scr->frameBuffer, x, y);
     if (mode == 0) continue;
     if (mode == 1) bad = ((got ^ want) & m) != 0;
     else bad = !(chan_ok(got, f->redMax, f->redShift, rgb[0]) && chan_ok(got, f->greenMax, f->greenShift, rgb[1]) &&
                  chan_ok(got, f->blueMax, f->blueShift, rgb[2]));
-    if (bad) { printf("oracle c%d BAD pixel %d,%d got=%x want=%x\n", id, x, y, got, want); return; }
+    if (!bad) continue;
+    under = getpx((unsigned char *)scr->frameBuffer, x, y);
+    if (kind[id] == 0 && (x == W - 1 || y == H - 1) && got == under) cause = " cause=clip-last-col-row";
+    else if (mode == 2 && got == colour_unscaled(rgb[0], rgb[1], rgb[2])) cause = " cause=xcolour-unscaled";
+    if (!have || (hcause[0] && !cause[0])) { have = 1; hx = x; hy = y; hgot = got; hwant = want; hcause = cause; }
+    if (!cause[0]) goto report;
   }
-  printf("oracle c%d ok\n", id);
+report:
+  if (have) printf("%s c%d BAD pixel %d,%d got=%x want=%x pointer=%d,%d%s\n", label, id, hx, hy, hgot, hwant, px, py, hcause);
+  else printf("%s c%d ok\n", label, id);
+}
+
+/* direct oracle, part 2, for a client whose full-screen request was pending at this pump:
+   raw client: picture == framebuffer with the cursor laid over it at the CURRENT pointer position
+   shape client: picture == framebuffer */
+static void oracle_client(int id) { check_pixels("oracle", id, scr->cursorX, scr->cursorY, NULL); }
+
+/* direct oracle, part 3 (every pump, every live client): the whole-history invariant on the real
+   server state - every pixel is either still pending in cl->modifiedRegion or the client's picture
+   shows there the framebuffer (soft-cursor clients: with the cursor laid over it at cl->cursorX/Y) */
+static void inv_client(int id) {
+  rfbClientPtr cl = conns[id].cl; int x, y;
+  unsigned char *pend = (unsigned char *)calloc((size_t)W * H, 1);
+  sraRectangleIterator *it = sraRgnGetIterator(cl->modifiedRegion); sraRect r;
+  while (sraRgnIteratorNext(it, &r))
+    for (y = r.y1; y < r.y2; y++) for (x = r.x1; x < r.x2; x++) if (x >= 0 && y >= 0 && x < W && y < H) pend[y * W + x] = 1;
+  sraRgnReleaseIterator(it);
+  check_pixels("inv", id, cl->cursorX, cl->cursorY, pend);
+  free(pend);
 }
 
 /* ---------------------------------------------------------------- decoding the server's output */
@@ -387,7 +425,7 @@ int main(void) {
         if (!used[i]) continue;
         vh_drain(&conns[i]);
         dead = !alive(i);
-        if (st[i].n == 0) { printf("c%d %s\n", i, dead ? "dead" : "n=0"); if (!dead && fullreq[i]) oracle_client(i); continue; }
+        if (st[i].n == 0) { printf("c%d %s\n", i, dead ? "dead" : "n=0"); if (!dead && fullreq[i]) oracle_client(i); if (!dead) inv_client(i); continue; }
         if (st[i].res && !dead) perr = decode(i, &shape, &havepos, &px, &py);
         printf("c%d n=%d res=%d before=%016llx painted=%016llx after=%016llx cur=%d,%d ucl=%d", i, st[i].n, st[i].res,
                (unsigned long long)st[i].before, (unsigned long long)st[i].painted, (unsigned long long)st[i].after,
@@ -401,6 +439,7 @@ int main(void) {
         /* direct oracle, part 1: the application's framebuffer is bit-identical after the update */
         if (st[i].after != st[i].before) printf("oracle c%d BAD framebuffer changed by update (res=%d)\n", i, st[i].res);
         if (st[i].res && !dead && fullreq[i]) oracle_client(i);
+        if (st[i].res && !dead && !perr) inv_client(i);
         fullreq[i] = 0;
         free(shape.p);
       }
